@@ -8,10 +8,10 @@ import (
 	"errors"
 	"sync"
 
+	kmsv2 "github.com/aws/aws-sdk-go-v2/service/kms"
 	awsv1 "github.com/aws/aws-sdk-go/aws"
 	reqv1 "github.com/aws/aws-sdk-go/aws/request"
 	kmsv1 "github.com/aws/aws-sdk-go/service/kms"
-	kmsv2 "github.com/aws/aws-sdk-go-v2/service/kms"
 )
 
 // KMSWorld is a set of fake regional AWS KMS endpoints sharing one call log.
